@@ -1,3 +1,3 @@
 From Coq Require Import ExtrOcamlBasic.
 From HV Require Import Base.BSet Attr.Cpukinds.
-Extraction "c15_model.ml" init_state pub_register restrict_state rank_state dup_state xml_reload get_nr get_info get_by_cpuset bs_inter bs_is_empty internal_register adopt_state guarded_step.
+Extraction "c15_model.ml" init_state pub_register restrict_state rank_state dup_state xml_reload get_nr get_info get_by_cpuset bs_inter bs_is_empty internal_register adopt_state guarded_step topology_restrict.
